@@ -111,8 +111,9 @@ class Path:
 
 class Symex:
     def __init__(self, facts, models=None, max_depth=8, loop_bound=2, max_paths=50000, no_inline=(),
-                 inline_crates=("geo", "geo_types", "geo_verif_roots"), mono=None, opaque_ok=True, budget_s=20.0):
+                 inline_crates=("geo", "geo_types", "geo_verif_roots"), mono=None, opaque_ok=True, budget_s=20.0, concrete_iters=False):
         self.facts = facts
+        self.concrete_iters = concrete_iters
         self.models = dict(DEFAULT_MODELS)
         if models:
             self.models.update(models)
@@ -615,6 +616,12 @@ class Symex:
     def dispatch(self, st, call, args, inst, fn):
         # 1. models
         if call.trait in ("core::iter::traits::iterator::Iterator", "core::iter::traits::double_ended::DoubleEndedIterator", "core::iter::traits::exact_size::ExactSizeIterator"):
+            if self.concrete_iters:
+                from . import citer
+                r = citer.m_next(self, st, call, args) if call.method == "next" else citer.consumer(self, st, call, args)
+                if r is not NotImplemented:
+                    yield from r
+                    return
             r = m_iter_pure(self, st, call, args)
             if r is not NotImplemented:
                 yield from r
@@ -949,11 +956,63 @@ def m_deref(ex, st, call, args):
     return NotImplemented
 
 
+def _concrete_items(ex, st, v):
+    """elements of an array / vec![..] value of concrete length (through references and Deref), else None"""
+    for _ in range(8):
+        if v[0] == "ref":
+            v = ex.load(st, v[1])
+        elif v[0] in ("&",):
+            v = v[1]
+        else:
+            break
+    v = ex.canon(st, v)
+    while v[0] in ("&", "deref"):
+        v = v[1]
+    if v[0] == "array":
+        return v[1]
+    if v[0] == "call" and v[1] == "vec!" and v[2]:
+        a = v[2][0]
+        while a[0] == "&":
+            a = a[1]
+        if a[0] == "array":
+            return a[1]
+    return None
+
+
 def m_len(ex, st, call, args):
+    xs = _concrete_items(ex, st, args[0])
+    if xs is not None:
+        return _ret(st, ("const", len(xs)))
     v = ex.canon(st, ex.deref_val(st, args[0]))
     if v[0] == "array":
         return _ret(st, ("const", len(v[1])))
     return _ret(st, ("len", v))
+
+
+def m_is_empty(ex, st, call, args):
+    xs = _concrete_items(ex, st, args[0])
+    if xs is None:
+        return NotImplemented
+    return _ret(st, ("const", len(xs) == 0))
+
+
+def m_get_unchecked(ex, st, call, args):
+    xs = _concrete_items(ex, st, args[0])
+    i = ex.canon(st, args[1])
+    if xs is None or i[0] != "const" or not isinstance(i[1], int) or not (0 <= i[1] < len(xs)):
+        return NotImplemented
+    return _ret(st, ("&", xs[i[1]]))
+
+
+def m_first_last(which):
+    def f(ex, st, call, args):
+        xs = _concrete_items(ex, st, args[0])
+        if xs is None:
+            return NotImplemented
+        if not xs:
+            return _ret(st, ("adt", "core::option::Option", "None", ()))
+        return _ret(st, ("adt", "core::option::Option", "Some", (("&", xs[0 if which == "first" else -1]),)))
+    return f
 
 
 def m_partial_ord_cmp_scalar(ex, st, call, args):
@@ -1270,6 +1329,11 @@ DEFAULT_MODELS = {
     "core::ops::deref::Deref::deref": m_deref,
     "core::ops::deref::DerefMut::deref_mut": m_deref,
     "alloc::vec::Vec::<T, A>::len": m_len,
+    "alloc::vec::Vec::<T, A>::is_empty": m_is_empty,
+    "core::slice::<impl [T]>::is_empty": m_is_empty,
+    "core::slice::<impl [T]>::get_unchecked": m_get_unchecked,
+    "core::slice::<impl [T]>::first": m_first_last("first"),
+    "core::slice::<impl [T]>::last": m_first_last("last"),
     "core::slice::<impl [T]>::len": m_len,
     "core::borrow::Borrow::borrow": m_identity,
     "core::cmp::Ordering::then_with": m_ord_then_with,
